@@ -10,7 +10,7 @@
 (* Words are <<hi16, lo16>> limb pairs (module Word32).  Byte strings are  *)
 (* sequences of naturals 0..255.                                           *)
 (***************************************************************************)
-EXTENDS Integers, Sequences, SequencesExt, Word32
+EXTENDS Integers, Sequences, SequencesExt, Word32, TLC
 
 ---------------------------------------------------------------------------
 (* The crypt table: 0x500 words generated from seed 0x00100001 by          *)
@@ -85,6 +85,17 @@ CInit(k) == [key |-> k, seed |-> HSeed2, out |-> <<>>]
 EncryptBlock(ws, k) == IF k = WZero THEN ws ELSE FoldLeft(EncStep, CInit(k), ws).out
 DecryptBlock(ws, k) == IF k = WZero THEN ws ELSE FoldLeft(DecStep, CInit(k), ws).out
 DecryptDword(w, k)  == IF k = WZero THEN w ELSE DecryptBlock(<<w>>, k)[1]
+
+\* Ciphertext words of a constant-plaintext buffer at the probe positions only (O(1) state per step):
+\* plaintext word pw repeated nw times; returns a function from probe index to ciphertext word.
+EncryptProbes(pw, nw, key, probeSet) ==
+  LET step(acc, ix) ==
+        LET seed1 == Add32(acc.seed, CryptTable[1024 + LowByte(acc.key)])
+            outw  == Xor32(pw, Add32(acc.key, seed1))
+            seed2 == Add32n(Add32(Add32(pw, seed1), Shl32(seed1, 5)), 3)
+        IN  [key |-> NextKey(acc.key), seed |-> seed2,
+             out |-> IF ix \in probeSet THEN acc.out @@ (ix :> outw) ELSE acc.out]
+  IN  FoldLeft(step, [key |-> key, seed |-> HSeed2, out |-> <<>>], [ix \in 1..nw |-> ix]).out
 
 \* byte strings <-> words (little endian); Len(bs) must be a multiple of 4 for WordsOf
 WordsOf(bs) == [i \in 1..(Len(bs) \div 4) |->
